@@ -9,3 +9,4 @@ git diff | grep '^[-+]' | grep -v '^+++\|^---'
 cd /verif && ./vcheck "$prop" quick 2>&1 | grep -E "VIOLATION|KNOWN-FINDING|class:|MACHINERY|tier:" | head -${MUT_LINES:-8}
 echo "exit=${PIPESTATUS[0]}"
 cd /repo && git checkout -- .
+git -C /verif checkout -q -- evidence 2>/dev/null  # evidence written by runs against a changed tree is not evidence
